@@ -13,6 +13,7 @@ CONSTANTS
   MaxCycles = 1
   RecheckUnderLock = TRUE
   GuardedConn = TRUE
+  PerCycleWG = TRUE
   Script <- MCScript
 VIEW view
 INVARIANTS MutualExclusion FifoPrefix AtMostOnce ExactlyOnce NoPanic AfterShutdown NoLateStart Accounted
